@@ -100,7 +100,7 @@ def check_loads(ae, ref, where, runs=None):
                         rt.require(type(sv[vn]).__name__ == f'Val_{task}_{name}_{sv.name()}_{vn}', 'c06:foreign-type', f'{where}: value object of another author loaded')
 
 
-def hist_body(prop, k, sel):
+def hist_body(prop, k, sel, dup=False):
     with rt.island():
         ae, w = setup()
         w.reset()
@@ -126,7 +126,7 @@ def hist_body(prop, k, sel):
                 task, name = ALGS[e[1]]
                 target, run = SLOTS[e[2]]
                 # C07 wants repeating contents, C06 distinct ones
-                content = f'c{step}' if prop == 'C06' else f'c{e[2] % 2}'
+                content = f'c{step}' if prop == 'C06' and not dup else f'c{e[2] % 2}'
                 rt.note(f'UPDATE {task}.{name} {target} run={run} content={content}')
                 before = set(w.store())
                 alg, nv = do_update(ae, task, name, target, run, content)
